@@ -34,6 +34,10 @@ const (
 	ClassNet
 	ClassGo
 	ClassMisc
+	// ClassUnlock: a decision point right AFTER a lock is released (the releasing goroutine may be overtaken
+	// at once by one that was waiting for, or now tries, the lock). Not part of ClassAll: schedule-exploring
+	// configurations switch it on in a drawn fraction of the runs (it roughly doubles the lock yields).
+	ClassUnlock
 	ClassAll = ClassLock | ClassChan | ClassFS | ClassNet | ClassGo | ClassMisc
 )
 
